@@ -167,7 +167,11 @@ def r1(run):
     slots = read_options_slots(run)
     ci = slots.index("context_id")
     sites = [(b, c) for (b, c) in C.callers_of(facts, C.READ)]
-    run.floor("Store::read call sites", len(sites), 8)
+    # floors by role (a total count would alarm when an unrelated all-contexts reader is removed)
+    fns = {facts.enclosing_fn(b) for (b, c) in sites}
+    for must in ("xs::api::handle_head_get", "xs::api::handle_stream_cat", "xs::handlers::handler::Handler::spawn"):
+        run.ob("role-site|%s" % must, must in fns, "<crate>", "the Store::read call site of %s is visible to the rule" % must, reason="instance-count-below-floor")
+    run.floor("Store::read call sites", len(sites), 5)
     for (b, c) in sites:
         fn = facts.enclosing_fn(b)
         run.touch(b)
